@@ -454,6 +454,15 @@ func replayMain(p *Property) int {
 		fmt.Println("bad replay file:", err)
 		return 2
 	}
+	if rf.Cfg.Prop == "C07F" {
+		ep, _ := c07fEpisode(rf.Seed)
+		if v := p.firstOwned(ep.Viols); v != nil {
+			fmt.Printf("REPRODUCED clause=%s: %s\nVIOLATION property=%s replay=%s\n", v.Clause, v.Msg, rf.Property, *fReplay)
+			return 1
+		}
+		fmt.Printf("NOT REPRODUCED: property=%s clause=%s no longer fails on this tree\n", rf.Property, rf.Clause)
+		return 0
+	}
 	if rf.Cfg.Prop == "C04Q" {
 		res := c04LayerQ(rf.Seed, *fTier)
 		clause, msg, _ := c04Check(res)
